@@ -43,7 +43,7 @@ def run(model: Model, rep: Report, tier: str) -> None:
         "Decides this structure; legitimacy of the counterfactual graph (C18's undecided core) and the value identity are not decided."
     )
     rep.trusted_base = ["Shpitser & Pearl 2008, Theorem (ID* soundness)", "C18 structural rules (re-run)", "C14"]
-    rep.floors = {"R7.1": 6, "R7.2": 2, "R7.3": 3, "R7.4": 1, "R7.5": 1, "R6.4": 2, "R18.4": 6}
+    rep.floors = {"R7.1": 6, "R7.2": 2, "R7.3": 3, "R7.4": 1, "R7.5": 1, "R6.4": 2}
     sa = SetAlg()
     V = ("cls", VARIABLE)
     # ---------------------------------------------------------------- R7.1
@@ -194,6 +194,9 @@ def run(model: Model, rep: Report, tier: str) -> None:
     (rep.proven if ok else rep.refuted)("R7.5", construct(f, "conflict-test"), "" if ok else "a conflict is a subscript and a piece of evidence with the same name and different values", loc(f))
     # inherited
     c06.r6_4(model, rep)
-    c18.r18_predicates(model, rep)
-    c18.r18_families(model, rep)
-    c18.r18_driver(model, rep)
+    sub = Report(rep.property_id, rep.tier)
+    c18.run(model, sub, tier)
+    rep.obligations.extend(sub.obligations)
+    rep.errors.extend(sub.errors)
+    for k, v in sub.floors.items():
+        rep.floors[k] = v
